@@ -15,6 +15,13 @@ from . import boxes, framework as fw, record, tlc, optim
 from .common import VERIF
 
 
+def stream_box(nbox):
+    """Dense small box plus a sparse layer of larger (n, s) for the stream comparison."""
+    from .record import mkcfg
+    big = [mkcfg("Mixed", max_n=n, ram=s, st=1) for n in (52, 61, 77, 90, 130) for s in (1, 2, 4, 7, 11, n - 2)]
+    return boxes.mixed(nbox) + big
+
+
 def worker(np_, nbox):
     """Runs in the interpreter that has the stub numba on sys.path."""
     cs = record.lib()
@@ -23,7 +30,7 @@ def worker(np_, nbox):
     entries = []
     if not (hasattr(mx, "mixed_steps_tabulation") and hasattr(mx, "mixed_step_memoization")):
         out["entries"] = []        # planners renamed: only the streams of the two paths are compared
-        out["traces"] = record.record_many(boxes.mixed(nbox), procs=8)
+        out["traces"] = record.record_many(stream_box(nbox), procs=8)
         return out
     tab = mx.mixed_steps_tabulation(np_, np_ - 1)
     for n in range(1, np_ + 1):
@@ -40,7 +47,7 @@ def worker(np_, nbox):
                             "t": [int(t2[n, s, 0]), int(t2[n, s, 1]), int(t2[n, s, 2])],
                             "src": f"table({n},{s})[{n},{s}]"})
     out["entries"] = entries
-    out["traces"] = record.record_many(boxes.mixed(nbox), procs=8)
+    out["traces"] = record.record_many(stream_box(nbox), procs=8)
     return out
 
 
@@ -81,7 +88,7 @@ def check(ctx):
                       "what": f"{e['src']}: {which} cost {claims[b]['v']} differs from the mixed recurrence",
                       "trace": {"entry": e}})
     # (b) streams on both paths
-    memo = record.record_many(boxes.mixed(nbox))
+    memo = record.record_many(stream_box(nbox))
     stub = w["traces"]
     if len(memo) != len(stub):
         raise fw.Machinery("trace boxes of the two paths differ in size")
